@@ -1,7 +1,7 @@
 import json, os
 
 SPEC = {
-    "lean_modules": ["SemaModel.C04.Props", "SemaModel.C04.Tie"],
+    "lean_modules": ["SemaModel.C04.Props", "SemaModel.C04.Tie", "SemaModel.C04.Formula"],
     "lean_dirs": ["SemaModel/C04", "SemaModel/C08"],
     "harness": "c04",
     "harness_args": {
@@ -10,7 +10,8 @@ SPEC = {
     },
     "timeout": {"quick": 600, "thorough": 3000},
     "level": "proof",
-    "tie": ("T2: tools/facts_c04 extracts, on every run, the storage plans of plainPoint / binaryQuantizedPoint / "
+    "tie": "T1 (formula): the hybrid expression and the weight default of IndexFlat.Search are regenerated on every run into SemaModel/Generated/Hybrid.lean (floats symbolic, Go.FExpr); C04_hybrid_formula / C04_hybrid_generated are stated about them and the driver evaluates the generated tree against every real _hybridScore (hyb lines, bit for bit). The harness' metric oracle evaluates the documented metrics (float metrics, bit metrics of thresholded vectors, the product quantiser's sum) from their definitions in float64, independently of the repository's distance package (c04lib.RefDist). " +
+           ("T2: tools/facts_c04 extracts, on every run, the storage plans of plainPoint / binaryQuantizedPoint / "
             "productQuantizedPoint (which suffix WriteTo writes under which guard, what ReadFrom tries, what DeleteFrom deletes, "
             "what IdFromKey recognises, whether CheckAndClearDirty tracks a flag), the persisted parameter keys and the comparison "
             "operators of flat.Search into Generated/FactsC04.lean; the model interprets those tables and C04_enumerable / "
@@ -19,6 +20,8 @@ SPEC = {
             "batches on real shards are replayed line by line on the Lean model: bucket contents after every Flush, trained flags, "
             "ForEach id sets, Exists, and the canonical form of every warm flat-search answer over the harness-supplied distance table"),
     "required_theorems": [
+        # formula theorems (Formula.lean; notes/T1ext.md section 8): the hybrid expression generated from flat.go
+        "Sema.C04.C04_weight_default", "Sema.C04.C04_hybrid_formula", "Sema.C04.C04_hybrid_generated",
         "Sema.C04.C04_exact", "Sema.C04.C04_candidates", "Sema.C04.C04_no_closer_left_out", "Sema.C04.C04_sorted_prefix",
         "Sema.C04.C04_nodup", "Sema.C04.C04_order_indep", "Sema.C04.C04_hybrid", "Sema.C04.C04_enumerable",
         "Sema.C04.C04_forEach_complete", "Sema.C04.C04_warm_cold",
@@ -28,6 +31,7 @@ SPEC = {
         "Sema.C04.C04_tie_step", "Sema.C04.C04_tie_search",
     ],
     "trusted_base": [
+        "the hybrid formula theorem fixes the expression structure `((-1) * weight) * dist` only; IEEE rounding is not interpreted; which metric `dist` is: C20's formula theorems and the independent float64 oracle of the harness (a test with the worst-case float32 rounding bound as tolerance)",
         "tools/facts_c04 (go/ast pattern extraction of the Storable methods; an unrecognised shape is a hard error) and the plan interpreter of C04/Model.lean",
         "floats: distances are elements of an abstract linear order in the theorems; the executable model receives the real float32 distances from the harness as order-preserving bit patterns (-0.0 = +0.0) and only orders them; NaN distances are outside the property and such queries are skipped (counted)",
         "the distance kernels themselves (distance package) are used by the oracle as the definition of the metrics (C20 is about them)",
